@@ -172,6 +172,9 @@ def case_key(case: dict) -> str:
         extra = f":K={case['K']}"
     elif case["agg"] == "cagrad":
         extra = f":c={case['c']:g}"
+    if "bs" in case:
+        b = case["bs"]
+        j += f"]:rho={''.join(map(str, b['rho']))}:gam={''.join(map(str, b['gam']))}:P={b['P']}:[bs"
     return f"{case['agg']}:J=[{j}]:e={case['e']}{extra}:{case.get('dtype', 'f64')}"
 
 
@@ -272,10 +275,92 @@ def c04_cases(scn: dict, tier: str) -> tuple[list[dict], dict]:
     return cases, cnt
 
 
+def c04_bs_cases(scn: dict, tier: str, salt: int) -> tuple[list[dict], dict]:
+    """Cases of one BADLY SCALED scenario (EpsScale.tla / DualCone.tla, BSCN): the instance is instantiated at
+    eps = 2^-P for the exponents of badscale.pick_P; s >= norm_eps is decided from the exact bracket of s^2;
+    CAGrad is judged where the specification decides the instance non-stationary with the margin
+    d2 / tr >= 1e-6 (every hull point g has |g| >= 1e-3 s = 10 norm_eps s, so the code cannot take its
+    'numerically stationary' branch and the conic problem has a well-determined optimum)."""
+    from . import badscale as B
+    cases: list[dict] = []
+    cnt = {"bs_undecided_scale_skipped": 0, "bs_below_norm_eps_outside_quantifier": 0, "bs_cagrad_stationary_not_judged": 0,
+           "bs_cagrad_near_stationary_not_judged": 0, "bs_cagrad_judged_instances": 0}
+    if not scn["tr"]:
+        cnt["bs_below_norm_eps_outside_quantifier"] += 1
+        return cases, cnt
+    conflict = scn["conflict"]
+    for P in B.pick_P(scn, salt):
+        f = B.facts(scn, P)
+        base = {"J0": scn["J0"], "m": scn["m"], "n": scn["n"], "conflict": conflict,
+                "bs": {"rho": scn["rho"], "gam": scn["gam"], "P": P},
+                "s2lo": B.pair(f["s2lo"]), "s2hi": B.pair(f["s2hi"]), "mn2": B.pair(f["d2"]), "tr": float(f["tr"])}
+        main = P >= 7
+        for e in ((0, -10, 20) if (main and conflict and salt % 4 == 0) else (0,)):
+            sg = bs_thresh_sign(f, e, NORM_EPS_DEFAULT)
+            if sg <= 0:
+                cnt["bs_undecided_scale_skipped" if sg == 0 else "bs_below_norm_eps_outside_quantifier"] += 1
+                continue
+            prefs = [(0, None)] + ([(1, BS_PREF[scn["m"]])] if conflict else [])
+            for pi, u in prefs:
+                for agg in ("upgrad", "dualproj"):
+                    cases.append(base | {"kind": "cone", "agg": agg, "pi": pi, "u": u, "e": e,
+                                         "norm_eps": NORM_EPS_DEFAULT, "reg_eps": REG_EPS_DEFAULT})
+            for K in ((2, 100) if (conflict and e == 0) else (10,)):
+                cases.append(base | {"kind": "mgda", "agg": "mgda", "K": K, "e": e})
+            if scn["stationary"]:
+                cnt["bs_cagrad_stationary_not_judged"] += 1
+            elif f["rho2"] < B.RHO2_MIN:
+                cnt["bs_cagrad_near_stationary_not_judged"] += 1
+            else:
+                cnt["bs_cagrad_judged_instances"] += 1
+                for c in (CAGRAD_CS if (main and e == 0) else (1.0,)):
+                    cases.append(base | {"kind": "cagrad", "agg": "cagrad", "c": c, "e": e})
+                if tier == "thorough" and main and e == 0:
+                    cases.append(base | {"kind": "cagrad", "agg": "cagrad", "c": 1.0, "e": 0, "dtype": "f32"})
+        if tier == "thorough" and main and conflict and bs_thresh_sign(f, 0, NORM_EPS_DEFAULT) > 0:
+            for agg in ("upgrad", "dualproj"):
+                cases.append(base | {"kind": "cone", "agg": agg, "pi": 0, "u": None, "e": 0,
+                                     "norm_eps": NORM_EPS_DEFAULT, "reg_eps": REG_EPS_DEFAULT, "dtype": "f32"})
+            cases.append(base | {"kind": "mgda", "agg": "mgda", "K": 10, "e": 0, "dtype": "f32"})
+    return cases, cnt
+
+
+BS_PREF = {2: [[1, 1], [2, 1]], 3: [[0, 1], [1, 1], [2, 1]]}        # a non-uniform preference vector per row count
+
+
+def bs_thresh_sign(f: dict, e: int, norm_eps: float) -> int:
+    """Exact sign of (2^e s) - norm_eps from the specification's bracket s2lo <= s^2 <= s2hi (0 = undecided)."""
+    t2 = Fraction(norm_eps) ** 2
+    sc = Fraction(4) ** e
+    margin = Fraction(1, 10 ** 9)
+    if sc * f["s2lo"] >= t2 * (1 + margin):
+        return 1
+    if sc * f["s2hi"] <= t2 * (1 - margin):
+        return -1
+    return 0
+
+
+def case_matrix(case: dict) -> torch.Tensor:
+    """The float64 matrix of a case (exact): 2^e J0, or 2^e D_r J0 D_c for a badly scaled case."""
+    if "bs" in case:
+        from . import badscale as B
+        b = case["bs"]
+        return torch.tensor(B.matrix({"J0": case["J0"], "rho": b["rho"], "gam": b["gam"]}, b["P"], case["e"]),
+                            dtype=torch.float64)
+    return scaled(case["J0"], case["e"], torch.float64)
+
+
 def mgda_big_case(scn: dict, K: int) -> dict:
     return {"J0": scn["J"], "m": scn["m"], "n": scn["n"], "tr": scn["tr"], "lamLo": scn["lamLo"],
             "lamInt": scn["lamInt"], "conflict": scn["conflict"], "mn2": scn["mn2"],
             "kind": "mgda", "agg": "mgda", "K": K, "e": 0}
+
+
+def _jdesc(case: dict) -> str:
+    if "bs" in case:
+        b = case["bs"]
+        return f"J = 2^{case['e']} * diag(2^-{b['P']}*{b['rho']}) {case['J0']} diag(2^-{b['P']}*{b['gam']})"
+    return f"J = 2^{case['e']} * {case['J0']}"
 
 
 def eval_c04(case: dict) -> list[tuple[str, str]]:
@@ -286,13 +371,17 @@ def eval_c04(case: dict) -> list[tuple[str, str]]:
     key = case_key(case)
     f32 = case.get("dtype") == "f32"
     dtype = torch.float32 if f32 else torch.float64
-    e, L = case["e"], case["lamLo"]
-    s2_hi = float(Fraction(4) ** e * (L if case["lamInt"] else L + 1))      # s^2 <= s2_hi (exact bracket)
+    e = case["e"]
+    if "bs" in case:
+        s2_hi = float(Fraction(4) ** e * fr(case["s2hi"]))                  # s^2 <= s2_hi (exact bracket, EpsScale.tla)
+    else:
+        L = case["lamLo"]
+        s2_hi = float(Fraction(4) ** e * (L if case["lamInt"] else L + 1))  # s^2 <= s2_hi (exact bracket)
     s_hi = math.sqrt(s2_hi)
-    J64 = scaled(case["J0"], e, torch.float64)
+    J64 = case_matrix(case)
     try:
         if case["kind"] == "cone":
-            u = None if (case["pi"] == 0 and case["m"] > 1) else frv(case["u"])
+            u = None if (case["u"] is None or (case["pi"] == 0 and case["m"] > 1)) else frv(case["u"])
             A = make(case["agg"], pref_tensor(u, dtype), case["norm_eps"], case["reg_eps"])
         elif case["kind"] == "mgda":
             A = make("mgda", None, epsilon=0.0, max_iters=case["K"])
@@ -302,13 +391,13 @@ def eval_c04(case: dict) -> list[tuple[str, str]]:
         out = A(J).to(torch.float64)
         w = A.weighting(J).to(torch.float64) if case["kind"] == "cone" else torch.zeros(case["m"], dtype=torch.float64)
     except Exception as ex:                                                   # noqa: BLE001
-        return [(key + ":raised", f"{case['agg']} raised {type(ex).__name__}: {str(ex)[:150]} on J=2^{e}*{case['J0']}")]
+        return [(key + ":raised", f"{case['agg']} raised {type(ex).__name__}: {str(ex)[:150]} on {_jdesc(case)}")]
     if not (bool(torch.isfinite(out).all()) and bool(torch.isfinite(w).all())):
-        return [(key + ":nonfinite", f"{case['agg']} returned a non-finite vector on J=2^{e}*{case['J0']}")]
+        return [(key + ":nonfinite", f"{case['agg']} returned a non-finite vector on {_jdesc(case)}")]
     prod = (J64 @ out).tolist()
     wl = w.tolist()
     w1 = sum(abs(x) for x in wl)
-    desc = f"on J = 2^{e} * {case['J0']}" + (" (float32)" if f32 else "")
+    desc = f"on {_jdesc(case)}" + (" (float32)" if f32 else "")
     if case["kind"] == "cone":
         # allowance reg_eps * s^2 * w_i  (+ float floor: SVD / QP / product rounding, relative to s^2 |w|)
         floor = (1e-4 if f32 else 1e-11) * s2_hi * w1
@@ -393,6 +482,24 @@ def work_c04(args) -> dict:
     for c in cases:
         kinds[c["agg"]] = kinds.get(c["agg"], 0) + 1
     return {"n": len(cases), "fails": fails, "cnt": cnt, "kinds": kinds, "gap100": gap100, "obs": obs}
+
+
+def work_c04_bs(args) -> dict:
+    scn, tier, salt = args
+    cases, cnt = c04_bs_cases(scn, tier, salt)
+    fails, obs = [], []
+    for c in cases:
+        for key, what in eval_c04(c):
+            if key == "__gap__":
+                continue
+            if key == "__obs__":
+                obs.append(what)
+                continue
+            fails.append((key, what, c))
+    kinds: dict[str, int] = {}
+    for c in cases:
+        kinds["bs_" + c["agg"]] = kinds.get("bs_" + c["agg"], 0) + 1
+    return {"n": len(cases), "fails": fails, "cnt": cnt, "kinds": kinds, "obs": obs}
 
 
 def work_c04_big(args) -> dict:
